@@ -482,6 +482,10 @@ func (m *MetadataStore) GroupJoin(ctx context.Context, g *protocoltypes.Group) (
 		return nil, errcode.ErrCode_ErrGroupInvalidType
 	}
 
+	if g == nil {
+		return nil, errcode.ErrCode_ErrInvalidInput.Wrap(fmt.Errorf("no group provided"))
+	}
+
 	if err := g.IsValid(); err != nil {
 		return nil, errcode.ErrCode_ErrDeserialization.Wrap(err)
 	}
